@@ -523,43 +523,11 @@ Proof.
   - apply IH. apply andb_prop in H. tauto.
 Qed.
 
-Lemma subb_of_eqb : forall a b, notv a = true -> ty_eqb a b = true -> subb a b = true.
-Proof.
-  intros a b; pattern a, b; apply pair_size_ind; clear a b; intros a b IH Hv He.
-  destruct a as [c| | |l|o args|o|p m|e|n bd cs|u]; destruct b as [c'| | |l'|o' args'|o'|p' m'|e'|n' bd' cs'|u'];
-    try discriminate; try (apply subb_top; reflexivity).
-  - rewrite subb_atomic by reflexivity. simpl. apply cls_eqb_le. exact He.
-  - rewrite subb_src_union. apply forallb_forall. intros x Hx.
-    simpl in He. apply andb_prop in He. destruct He as [He _]. rewrite forallb_forall in He.
-    specialize (He x Hx). apply existsb_exists in He. destruct He as [y [Hy Hxy]].
-    apply (subb_union_r x y l' Hy). apply IH; [sz| |exact Hxy]. eapply notv_inv_union; eauto.
-  - simpl in He. apply andb_prop in He. destruct He as [Ho Hg]. apply ty_eqb_go_Forall2 in Hg.
-    rewrite subb_atomic by reflexivity. cbn [target_sub head_sub].
-    destruct (Forall2_forallb2 subb _ _ _ Hg) as [E1 E2].
-    { intros x y Hx Hy Hxy. apply IH; [sz| |exact Hxy]. eapply notv_inv_gen; eauto. }
-    rewrite E1, E2, Nat.eqb_refl, (origin_eqb_le _ _ Ho). reflexivity.
-  - rewrite subb_atomic by reflexivity. simpl. apply origin_eqb_le. exact He.
-  - simpl in He. apply andb_prop in He. destruct He as [He _].
-    rewrite subb_src_annot. apply subb_annot_r. apply IH; [sz|exact Hv|exact He].
-  - rewrite subb_atomic by reflexivity. cbn [target_sub head_sub]. apply IH; [sz|exact Hv|exact He].
-Qed.
-
 Lemma check_false_inv a b : check_identical_or_any a b = false ->
   is_unres a = false /\ is_unres b = false /\ ty_eqb a b = false /\ is_any b = false /\ is_noann a = false /\ is_noann b = false.
 Proof.
   unfold check_identical_or_any. destruct (is_unres a), (is_unres b); simpl; try discriminate.
   destruct (ty_eqb a b), (is_any b), (is_noann a), (is_noann b); simpl; try discriminate. intros _; repeat split; reflexivity.
-Qed.
-
-Lemma check_true_subb a b : notv a = true -> check_identical_or_any a b = true -> subb a b = true.
-Proof.
-  unfold check_identical_or_any. intros Hv H.
-  destruct (is_unres a) eqn:E1. { destruct a; try discriminate. apply subb_unres_l. }
-  destruct (is_unres b) eqn:E2. { apply subb_top. unfold is_top. rewrite E2, !orb_true_r. reflexivity. }
-  simpl in H. destruct (ty_eqb a b) eqn:E3. { apply subb_of_eqb; auto. }
-  destruct (is_any b) eqn:E4. { apply subb_top. unfold is_top. rewrite E4. reflexivity. }
-  destruct (is_noann a) eqn:E5. { destruct a; try discriminate. apply subb_noann_l. }
-  simpl in H. apply subb_top. unfold is_top. rewrite H, orb_true_r. reflexivity.
 Qed.
 
 Lemma typevar_compatible_target r a n bd cs :
@@ -589,6 +557,59 @@ Proof. intros W H. apply wf_inv_var in W. destruct W as [W1 W2]. destruct H; aut
 
 Ltac bcase := repeat match goal with |- context [if ?c then _ else _] => destruct c end; try reflexivity.
 
+Lemma forallb_map {A B} (f : B -> bool) (g : A -> B) l : forallb f (map g l) = forallb (fun x => f (g x)) l.
+Proof. induction l as [|x l IH]; simpl; [reflexivity|]. rewrite IH. reflexivity. Qed.
+
+Lemma forallb2_map_l {A A' B} (f : A' -> B -> bool) (g : A -> A') l1 l2 :
+  forallb2 f (map g l1) l2 = forallb2 (fun x y => f (g x) y) l1 l2.
+Proof. revert l2; induction l1 as [|x l1 IH]; intros [|y l2]; simpl; try reflexivity. rewrite IH. reflexivity. Qed.
+
+Lemma notv_vars_unknown : forall a, notv a = true -> vars_unknown a = a.
+Proof.
+  induction a as [a IH] using ty_size_ind. intros H.
+  assert (G : forall l, (forall x, In x l -> size x < size a) -> forallb notv l = true -> map vars_unknown l = l).
+  { induction l as [|x l IHl]; intros Hs Hn; [reflexivity|]. simpl in *. apply andb_prop in Hn. destruct Hn as [H1 H2].
+    rewrite (IH x) by auto. rewrite IHl; auto. }
+  destruct a as [c| | |l|o args|o|p m|e|n bd cs|u]; simpl in *; try reflexivity; try discriminate.
+  - rewrite G; [reflexivity|intros x Hx; sz|exact H].
+  - rewrite G; [reflexivity|intros x Hx; sz|exact H].
+  - rewrite IH; [reflexivity|lia|exact H].
+  - rewrite IH; [reflexivity|lia|exact H].
+Qed.
+
+Lemma subb_of_eqb_unknown : forall a b, ty_eqb a b = true -> subb (vars_unknown a) b = true.
+Proof.
+  intros a b; pattern a, b; apply pair_size_ind; clear a b; intros a b IH He.
+  destruct a as [c| | |l|o args|o|p m|e|n bd cs|u]; destruct b as [c'| | |l'|o' args'|o'|p' m'|e'|n' bd' cs'|u'];
+    try discriminate; try (apply subb_top; reflexivity); try apply subb_noann_l.
+  - rewrite subb_atomic by reflexivity. simpl. apply cls_eqb_le. exact He.
+  - cbn [vars_unknown]. rewrite subb_src_union, forallb_map. apply forallb_forall. intros x Hx.
+    simpl in He. apply andb_prop in He. destruct He as [He _]. rewrite forallb_forall in He.
+    specialize (He x Hx). apply existsb_exists in He. destruct He as [y [Hy Hxy]].
+    apply (subb_union_r _ y l' Hy). apply IH; [sz|exact Hxy].
+  - simpl in He. apply andb_prop in He. destruct He as [Ho Hg]. apply ty_eqb_go_Forall2 in Hg.
+    cbn [vars_unknown]. rewrite subb_atomic by reflexivity. cbn [target_sub head_sub].
+    rewrite forallb2_map_l, map_length.
+    destruct (Forall2_forallb2 (fun x y => subb (vars_unknown x) y) _ _ _ Hg) as [E1 E2].
+    { intros x y Hx Hy Hxy. apply IH; [sz|exact Hxy]. }
+    rewrite E1, E2, Nat.eqb_refl, (origin_eqb_le _ _ Ho). reflexivity.
+  - rewrite subb_atomic by reflexivity. simpl. apply origin_eqb_le. exact He.
+  - simpl in He. apply andb_prop in He. destruct He as [He _].
+    cbn [vars_unknown]. rewrite subb_src_annot. apply subb_annot_r. apply IH; [sz|exact He].
+  - cbn [vars_unknown]. rewrite subb_atomic by reflexivity. cbn [target_sub head_sub]. apply IH; [sz|exact He].
+Qed.
+
+Lemma check_true_subb_unknown a b : check_identical_or_any a b = true -> subb (vars_unknown a) b = true.
+Proof.
+  unfold check_identical_or_any. intros H.
+  destruct (is_unres a) eqn:E1. { destruct a; try discriminate. apply subb_unres_l. }
+  destruct (is_unres b) eqn:E2. { apply subb_top. unfold is_top. rewrite E2, !orb_true_r. reflexivity. }
+  simpl in H. destruct (ty_eqb a b) eqn:E3. { apply subb_of_eqb_unknown; auto. }
+  destruct (is_any b) eqn:E4. { apply subb_top. unfold is_top. rewrite E4. reflexivity. }
+  destruct (is_noann a) eqn:E5. { destruct a; try discriminate. apply subb_noann_l. }
+  simpl in H. apply subb_top. unfold is_top. rewrite H, orb_true_r. reflexivity.
+Qed.
+
 Ltac side :=
   first
     [ assumption | reflexivity
@@ -597,145 +618,152 @@ Ltac side :=
       | W : wf (TGen _ _) = true |- wf _ = true => apply (proj2 (wf_inv_gen _ _ W)); assumption
       | W : wf (TAnnot _ _) = true |- wf _ = true => apply (proj2 (wf_inv_annot _ _ W))
       | W : wf (TArray _) = true |- wf _ = true => exact W
-      | V : notv (TUnion _) = true |- notv _ = true => apply (notv_inv_union _ V); assumption
-      | V : notv (TGen _ _) = true |- notv _ = true => apply (notv_inv_gen _ _ V); assumption
-      | V : notv (TAnnot _ _) = true |- notv _ = true => exact V
-      | V : notv (TArray _) = true |- notv _ = true => exact V
       end ].
 
-Theorem compat_eq_subb : forall a b, wf a = true -> wf b = true -> notv a = true -> compat a b = subb a b.
+(* The complete characterisation of the model: is_type_compatible is the reference relation with every TypeVar of
+   the source read as unknown. *)
+Theorem compat_characterised : forall a b, wf a = true -> wf b = true -> compat a b = subb (vars_unknown a) b.
 Proof.
-  intros a b; pattern a, b; apply pair_size_ind; clear a b; intros a b IH Wa Wb Va.
+  intros a b; pattern a, b; apply pair_size_ind; clear a b; intros a b IH Wa Wb.
   rewrite compat_unfold. unfold step.
-  destruct (is_var a) eqn:Hvar. { destruct a; discriminate. }
-  destruct (check_identical_or_any a b) eqn:Hc. { symmetry. apply check_true_subb; auto. }
+  destruct (is_var a) eqn:Hvar. { destruct a; try discriminate. symmetry. apply subb_noann_l. }
+  destruct (check_identical_or_any a b) eqn:Hc. { symmetry. apply check_true_subb_unknown; auto. }
   apply check_false_inv in Hc. destruct Hc as (Ua & Ub & Eab & Ab & Na & Nb).
   assert (Tb : is_top b = false). { unfold is_top. rewrite Ab, Nb, Ub. reflexivity. }
-  (* the TypeVar target, for sources that the union handler leaves alone *)
-  assert (TV : forall n bd cs, b = TVar n bd cs -> atomic a = true ->
-               target_sub compat a b = target_sub subb a b).
-  { intros n bd cs -> _. apply target_var_ext. intros y Hy. apply IH; auto.
+  assert (TV : forall n bd cs, b = TVar n bd cs ->
+               target_sub compat a b = target_sub (fun _ y => subb (vars_unknown a) y) a b).
+  { intros n bd cs ->. apply target_var_ext. intros y Hy. apply IH; auto.
     - pose proof (size_var_part n bd cs y Hy). lia.
     - eapply wf_var_part; eauto. }
   destruct a as [c| | |l|o args|o|p m|e|n bd cs|u]; try discriminate.
   - (* class *)
-    rewrite (subb_atomic (TCls c) b eq_refl Tb).
+    cbn [vars_unknown] in *. rewrite (subb_atomic (TCls c) b eq_refl Tb).
     destruct b as [c'| | |l'|o' args'|o'|p' m'|e'|n' bd' cs'|u']; try discriminate.
     + simpl. bcase.
-    + simpl. apply existsb_ext_in. intros y Hy. apply IH; [sz|side|side|side].
+    + simpl. apply existsb_ext_in. intros y Hy. apply IH; [sz|side|side].
     + reflexivity.
     + reflexivity.
-    + simpl. apply IH; [sz|side|side|side].
+    + simpl. apply IH; [sz|side|side].
     + simpl. rewrite IH by (first [sz|side]). destruct c; reflexivity.
     + cbn [handle_union]. rewrite typevar_compatible_target. eapply TV; eauto.
   - (* Any *)
-    rewrite (subb_atomic TAny b eq_refl Tb).
+    cbn [vars_unknown] in *. rewrite (subb_atomic TAny b eq_refl Tb).
     destruct b as [c'| | |l'|o' args'|o'|p' m'|e'|n' bd' cs'|u']; try discriminate.
     + reflexivity.
-    + simpl. apply existsb_ext_in. intros y Hy. apply IH; [sz|side|side|side].
+    + simpl. apply existsb_ext_in. intros y Hy. apply IH; [sz|side|side].
     + reflexivity.
     + reflexivity.
-    + simpl. apply IH; [sz|side|side|side].
+    + simpl. apply IH; [sz|side|side].
     + simpl. rewrite IH by (first [sz|side]). reflexivity.
     + cbn [handle_union]. rewrite typevar_compatible_target. eapply TV; eauto.
   - (* union source *)
-    rewrite subb_src_union. simpl. apply forallb_ext_in. intros x Hx. apply IH; [sz|side|side|side].
+    cbn [vars_unknown]. rewrite subb_src_union, forallb_map. simpl. apply forallb_ext_in. intros x Hx.
+    apply IH; [sz|side|side].
   - (* parametrised generic *)
-    rewrite (subb_atomic (TGen o args) b eq_refl Tb).
-    destruct (wf_inv_gen _ _ Wa) as [Ne Wargs]. pose proof (notv_inv_gen _ _ Va) as Vargs.
+    cbn [vars_unknown] in *. rewrite (subb_atomic (TGen o (map vars_unknown args)) b eq_refl Tb).
+    destruct (wf_inv_gen _ _ Wa) as [Ne Wargs].
     destruct b as [c'| | |l'|o' args'|o'|p' m'|e'|n' bd' cs'|u']; try discriminate.
     + reflexivity.
-    + simpl. apply existsb_ext_in. intros y Hy. apply IH; [sz|side|side|side].
+    + simpl. apply existsb_ext_in. intros y Hy. apply (IH (TGen o args) y); [sz|side|side].
     + destruct (wf_inv_gen _ _ Wb) as [Ne' Wargs'].
       cbn [handle_union typevar_compatible handle_generic annot_parts origins_compatible args_of target_sub head_sub].
-      unfold compare_args.
-      rewrite (forallb2_ext_in compat subb args args') by (intros x y Hx Hy; apply IH; [sz|side|side|side]).
+      unfold compare_args. rewrite forallb2_map_l, map_length.
+      rewrite (forallb2_ext_in compat (fun x y => subb (vars_unknown x) y) args args')
+        by (intros x y Hx Hy; apply IH; [sz|side|side]).
       destruct args; [congruence|]. destruct args'; [congruence|]. cbn [is_nil orb].
       destruct (origin_le o o'); [|reflexivity]. cbn [andb].
       destruct (length (t :: args) =? length (t0 :: args')); reflexivity.
     + simpl. unfold compare_args. simpl. rewrite ?orb_true_r. bcase.
-    + simpl. apply IH; [sz|side|side|side].
+    + simpl. apply (IH (TGen o args) p'); [sz|side|side].
     + cbn [handle_union typevar_compatible handle_generic annot_parts target_sub head_sub].
-      apply IH; [sz|side|side|side].
+      apply (IH (TGen o args) nd_obj); [sz|side|side].
     + cbn [handle_union]. rewrite typevar_compatible_target. eapply TV; eauto.
   - (* bare generic *)
-    rewrite (subb_atomic (TBare o) b eq_refl Tb).
+    cbn [vars_unknown] in *. rewrite (subb_atomic (TBare o) b eq_refl Tb).
     destruct b as [c'| | |l'|o' args'|o'|p' m'|e'|n' bd' cs'|u']; try discriminate.
     + reflexivity.
-    + simpl. apply existsb_ext_in. intros y Hy. apply IH; [sz|side|side|side].
+    + simpl. apply existsb_ext_in. intros y Hy. apply IH; [sz|side|side].
     + simpl. unfold compare_args. simpl. rewrite ?orb_true_r. bcase.
     + simpl. unfold compare_args. simpl. rewrite ?orb_true_r. bcase.
-    + simpl. apply IH; [sz|side|side|side].
+    + simpl. apply IH; [sz|side|side].
     + simpl. rewrite IH by (first [sz|side]). destruct o; reflexivity.
     + cbn [handle_union]. rewrite typevar_compatible_target. eapply TV; eauto.
   - (* Annotated source *)
-    rewrite subb_src_annot.
-    destruct (wf_inv_annot _ _ Wa) as [Lp Wp]. assert (Vp : notv p = true) by exact Va.
+    cbn [vars_unknown]. rewrite subb_src_annot.
+    destruct (wf_inv_annot _ _ Wa) as [Lp Wp].
     destruct (is_union p) eqn:Hnu.
-    { (* an annotated union is split like a union *)
-      destruct p as [c| | |lp|o args|o|p0 m0|e0|n0 bd0 cs0|u]; try discriminate.
-      rewrite subb_src_union. simpl. apply forallb_ext_in. intros x Hx. apply IH; [sz|side|side|side]. }
-    (* the other primary types: not decomposed by the reference, or unknown *)
-    assert (Hp : (forall y, is_top y = false -> subb p y = target_sub subb p y)
-                 /\ (forall e', target_sub subb p (TArray e') = subb p nd_obj)
-                 \/ (forall y, subb p y = true)).
     { destruct p as [c| | |lp|o args|o|p0 m0|e0|n0 bd0 cs0|u]; try discriminate.
+      cbn [vars_unknown]. rewrite subb_src_union, forallb_map. simpl. apply forallb_ext_in. intros x Hx.
+      apply IH; [sz|side|side]. }
+    set (q := vars_unknown p).
+    assert (Hp : (forall y, is_top y = false -> subb q y = target_sub subb q y)
+                 /\ (forall e', target_sub subb q (TArray e') = subb q nd_obj)
+                 \/ (forall y, subb q y = true)).
+    { subst q. destruct p as [c| | |lp|o args|o|p0 m0|e0|n0 bd0 cs0|u]; try discriminate; cbn [vars_unknown].
       - left; split; [intros y Hy; apply subb_atomic; [reflexivity|exact Hy]|]. intros e'. destruct c; reflexivity.
       - left; split; [intros y Hy; apply subb_atomic; [reflexivity|exact Hy]|]. reflexivity.
       - right. apply subb_noann_l.
       - left; split; [intros y Hy; apply subb_atomic; [reflexivity|exact Hy]|]. reflexivity.
       - left; split; [intros y Hy; apply subb_atomic; [reflexivity|exact Hy]|]. intros e'. destruct o; reflexivity.
+      - right. apply subb_noann_l.
       - right. apply subb_unres_l. }
     assert (HU : handle_union compat (TAnnot p m) b =
                  match b with TUnion l => Some (existsb (fun t => compat (TAnnot p m) t) l) | _ => None end).
     { destruct p; try discriminate; reflexivity. }
     rewrite HU. clear HU.
+    assert (IHa : forall y, size y < size b -> wf y = true -> compat (TAnnot p m) y = subb q y).
+    { intros y Hy Wy. rewrite IH by (first [simpl in *; lia|side]). cbn [vars_unknown]. apply subb_src_annot. }
+    assert (IHp : forall y, size y <= size b -> wf y = true -> compat p y = subb q y).
+    { intros y Hy Wy. apply IH; [simpl in *; lia|side|side]. }
     destruct b as [c'| | |l'|o' args'|o'|p' m'|e'|n' bd' cs'|u']; try discriminate.
-    + cbn [typevar_compatible handle_generic annot_parts]. apply IH; [sz|side|side|side].
-    + rewrite (existsb_ext_in _ (fun t => subb p t)) by
-        (intros y Hy; rewrite IH by (first [sz|side]); apply subb_src_annot).
+    + cbn [typevar_compatible handle_generic annot_parts]. apply IHp; [lia|side].
+    + rewrite (existsb_ext_in _ (fun t => subb q t)) by (intros y Hy; apply IHa; [sz|side]).
       destruct Hp as [[Hp2 _]|Hp].
       * rewrite Hp2 by reflexivity. reflexivity.
       * rewrite Hp. rewrite (existsb_ext_in _ (fun _ => true)) by (intros y Hy; apply Hp).
         apply existsb_const_true. apply (proj1 (wf_inv_union _ Wb)).
-    + cbn [typevar_compatible handle_generic annot_parts]. apply IH; [sz|side|side|side].
-    + cbn [typevar_compatible handle_generic annot_parts]. apply IH; [sz|side|side|side].
+    + cbn [typevar_compatible handle_generic annot_parts]. apply IHp; [lia|side].
+    + cbn [typevar_compatible handle_generic annot_parts]. apply IHp; [lia|side].
     + cbn [typevar_compatible handle_generic annot_parts compare_annotated].
-      rewrite IH by (first [sz|side]).
+      rewrite IHp by (first [simpl; lia|side]).
       destruct Hp as [[Hp2 _]|Hp].
-      * rewrite (Hp2 (TAnnot p' m')) by reflexivity. cbn [target_sub]. destruct (subb p p'); reflexivity.
+      * rewrite (Hp2 (TAnnot p' m')) by reflexivity. cbn [target_sub]. destruct (subb q p'); reflexivity.
       * rewrite !Hp. reflexivity.
     + cbn [typevar_compatible handle_generic annot_parts compare_annotated].
-      rewrite IH by (first [sz|side]).
+      rewrite IHp by (first [simpl; lia|side]).
       destruct Hp as [[Hp2 Hp3]|Hp].
-      * rewrite (Hp2 (TArray e')) by reflexivity. rewrite Hp3. destruct (subb p nd_obj); reflexivity.
+      * rewrite (Hp2 (TArray e')) by reflexivity. rewrite Hp3. destruct (subb q nd_obj); reflexivity.
       * rewrite !Hp. reflexivity.
     + rewrite typevar_compatible_target.
-      rewrite (target_var_ext compat (fun _ y => subb p y) _ n' bd' cs').
-      2: { intros y Hy. rewrite IH.
-           - apply subb_src_annot.
-           - pose proof (size_var_part n' bd' cs' y Hy). simpl in *. lia.
-           - exact Wa.
-           - eapply wf_var_part; eauto.
-           - exact Va. }
+      rewrite (target_var_ext compat (fun _ y => subb q y) _ n' bd' cs').
+      2: { intros y Hy. apply IHa.
+           - apply (size_var_part n' bd' cs' y Hy).
+           - eapply wf_var_part; eauto. }
       destruct Hp as [[Hp2 _]|Hp].
       * rewrite (Hp2 (TVar n' bd' cs')) by reflexivity. reflexivity.
       * rewrite Hp. unfold target_sub. destruct bd' as [x|]; [rewrite Hp; reflexivity|].
         destruct cs' as [|c0 cs']; [reflexivity|]. simpl. rewrite Hp. reflexivity.
   - (* Array source *)
-    rewrite (subb_atomic (TArray e) b eq_refl Tb).
+    cbn [vars_unknown] in *. rewrite (subb_atomic (TArray (vars_unknown e)) b eq_refl Tb).
     destruct b as [c'| | |l'|o' args'|o'|p' m'|e'|n' bd' cs'|u']; try discriminate.
     + simpl. rewrite IH by (first [sz|side]). destruct c'; reflexivity.
-    + simpl. apply existsb_ext_in. intros y Hy. apply IH; [sz|side|side|side].
+    + simpl. apply existsb_ext_in. intros y Hy. apply (IH (TArray e) y); [sz|side|side].
     + cbn [handle_union typevar_compatible handle_generic annot_parts target_sub head_sub].
-      apply IH; [sz|side|side|side].
+      apply (IH nd_obj); [sz|side|side].
     + simpl. rewrite IH by (first [sz|side]). destruct o'; reflexivity.
     + cbn [handle_union typevar_compatible handle_generic annot_parts compare_annotated target_sub].
-      apply IH; [sz|side|side|side].
+      apply (IH (TArray e) p'); [sz|side|side].
     + cbn [handle_union typevar_compatible handle_generic annot_parts compare_annotated target_sub head_sub].
-      rewrite compat_reflexive. cbn [negb]. apply IH; [sz|side|side|side].
+      rewrite compat_reflexive. cbn [negb]. apply IH; [sz|side|side].
     + cbn [handle_union]. rewrite typevar_compatible_target. eapply TV; eauto.
 Qed.
+
+Theorem compat_eq_subb : forall a b, wf a = true -> wf b = true -> notv a = true -> compat a b = subb a b.
+Proof. intros a b Wa Wb Va. rewrite (compat_characterised a b Wa Wb), (notv_vars_unknown a Va). reflexivity. Qed.
+
+Theorem compat_iff_sub_unknown : forall a b,
+  wf a = true -> wf b = true -> (compat a b = true <-> sub (vars_unknown a) b).
+Proof. intros a b Wa Wb. rewrite (compat_characterised a b Wa Wb). apply subb_iff_sub. Qed.
 
 Theorem compat_iff_sub_partial : forall a b,
   wf a = true -> wf b = true -> notv a = true -> (compat a b = true <-> sub a b).
@@ -751,42 +779,48 @@ Qed.
 
 (* union source = all members *)
 Theorem compat_union_src : forall l b,
-  wf (TUnion l) = true -> wf b = true -> notv (TUnion l) = true ->
-  compat (TUnion l) b = forallb (fun x => compat x b) l.
+  wf (TUnion l) = true -> wf b = true -> compat (TUnion l) b = forallb (fun x => compat x b) l.
 Proof.
-  intros l b Wa Wb Va. rewrite (compat_eq_subb _ _ Wa Wb Va), subb_src_union.
-  apply forallb_ext_in. intros x Hx. symmetry. apply compat_eq_subb; side.
+  intros l b Wa Wb. rewrite (compat_characterised _ _ Wa Wb). cbn [vars_unknown].
+  rewrite subb_src_union, forallb_map.
+  apply forallb_ext_in. intros x Hx. symmetry. apply compat_characterised; side.
 Qed.
 
 (* union target = some member, for a source that is not itself split *)
 Definition splits (a : ty) : bool :=
   match a with TUnion _ | TAnnot (TUnion _) _ => true | _ => false end.
 
+Lemma subb_union_tgt_unsplit : forall q l, l <> [] ->
+  (atomic q = true \/ q = TNoAnn \/ exists u, q = TUnres u) ->
+  subb q (TUnion l) = existsb (fun t => subb q t) l.
+Proof.
+  intros q l Ne [Hp|[->|[u ->]]].
+  - rewrite subb_atomic by (auto; reflexivity). reflexivity.
+  - rewrite subb_noann_l. rewrite (existsb_ext_in _ (fun _ => true)) by (intros; apply subb_noann_l).
+    symmetry. apply existsb_const_true. exact Ne.
+  - rewrite subb_unres_l. rewrite (existsb_ext_in _ (fun _ => true)) by (intros; apply subb_unres_l).
+    symmetry. apply existsb_const_true. exact Ne.
+Qed.
+
 Theorem compat_union_tgt : forall a l,
-  wf a = true -> wf (TUnion l) = true -> notv a = true -> splits a = false ->
+  wf a = true -> wf (TUnion l) = true -> splits a = false ->
   compat a (TUnion l) = existsb (fun t => compat a t) l.
 Proof.
-  intros a l Wa Wb Va Sa.
-  rewrite (existsb_ext_in _ (fun t => subb a t)) by (intros t Ht; apply compat_eq_subb; side).
-  rewrite (compat_eq_subb _ _ Wa Wb Va).
+  intros a l Wa Wb Sa.
+  rewrite (existsb_ext_in _ (fun t => subb (vars_unknown a) t)) by (intros t Ht; apply compat_characterised; side).
+  rewrite (compat_characterised _ _ Wa Wb).
   assert (Ne : l <> []) by apply (proj1 (wf_inv_union _ Wb)).
-  assert (K : forall p, (atomic p = true \/ p = TNoAnn \/ exists u, p = TUnres u) ->
-              subb p (TUnion l) = existsb (fun t => subb p t) l).
-  { intros p [Hp|[->|[u ->]]].
-    - rewrite subb_atomic by (auto; reflexivity). reflexivity.
-    - rewrite subb_noann_l. rewrite (existsb_ext_in _ (fun _ => true)) by (intros; apply subb_noann_l).
-      symmetry. apply existsb_const_true. exact Ne.
-    - rewrite subb_unres_l. rewrite (existsb_ext_in _ (fun _ => true)) by (intros; apply subb_unres_l).
-      symmetry. apply existsb_const_true. exact Ne. }
-  destruct a as [c| | |la|o args|o|p m|e|n bd cs|u]; try discriminate; try (apply K; eauto; left; reflexivity).
-  rewrite subb_src_annot. rewrite (existsb_ext_in _ (fun t => subb p t)) by (intros; apply subb_src_annot).
+  destruct a as [c| | |la|o args|o|p m|e|n bd cs|u]; try discriminate; cbn [vars_unknown];
+    try (apply subb_union_tgt_unsplit; eauto; left; reflexivity).
+  rewrite subb_src_annot. rewrite (existsb_ext_in _ (fun t => subb (vars_unknown p) t)) by (intros; apply subb_src_annot).
   destruct (wf_inv_annot _ _ Wa) as [Lp Wp].
-  destruct p as [c| | |lp|o args|o|p0 m0|e0|n0 bd0 cs0|u]; try discriminate; apply K; eauto; left; reflexivity.
+  destruct p as [c| | |lp|o args|o|p0 m0|e0|n0 bd0 cs0|u]; try discriminate; cbn [vars_unknown];
+    apply subb_union_tgt_unsplit; eauto; left; reflexivity.
 Qed.
 
 Theorem compat_union_tgt_intro : forall a t l,
-  wf a = true -> wf (TUnion l) = true -> notv a = true -> In t l -> compat a t = true -> compat a (TUnion l) = true.
+  wf a = true -> wf (TUnion l) = true -> In t l -> compat a t = true -> compat a (TUnion l) = true.
 Proof.
-  intros a t l Wa Wb Va Ht H. rewrite (compat_eq_subb _ _ Wa Wb Va).
-  apply (subb_union_r a t l Ht). rewrite <- (compat_eq_subb a t Wa) by side. exact H.
+  intros a t l Wa Wb Ht H. rewrite (compat_characterised _ _ Wa Wb).
+  apply (subb_union_r _ t l Ht). rewrite <- (compat_characterised a t Wa) by side. exact H.
 Qed.
